@@ -612,7 +612,9 @@ def _list_new(self, a, st, k):
     r, st2 = self.fresh_obj("newlist", st)
     la, ia = list_len_arr(st2), list_item_arr(st2)
     st2 = st2.with_mem("@listlen", z3.Store(la, r, n)).with_mem("@listitem", z3.Store(ia, r, z3.K(INT, NULL)))
-    return k(r, st2.assume(is_exact(r, "PyList_Type"), is_inst(r, "PyList_Type"), n >= 0))
+    # a newly allocated object is none of the objects the function already holds pointers to
+    known = [v for v in list(st.env.values()) + list(st.ghost.get("caller_kept", ())) if z3.is_expr(v) and v.sort() == Obj]
+    return k(r, st2.assume(is_exact(r, "PyList_Type"), is_inst(r, "PyList_Type"), n >= 0, *[r != v for v in known]))
 
 
 def _list_get_item(self, a, st, k):
